@@ -631,7 +631,7 @@ package astits
 // iterator, may only move it, and keeps it valid through its loops.
 
 //@ func newDescriptorAC3
-//@   requires itOK(i)
+//@   requires itOK(i) && i.offset < offsetEnd && offsetEnd <= i.offset + 255
 //@   modifies i.offset
 //@   opt sweep:C03
 
@@ -641,12 +641,12 @@ package astits
 //@   opt sweep:C03
 
 //@ func newDescriptorComponent
-//@   requires itOK(i)
+//@   requires itOK(i) && i.offset < offsetEnd && offsetEnd <= i.offset + 255
 //@   modifies i.offset
 //@   opt sweep:C03
 
 //@ func newDescriptorContent
-//@   requires itOK(i)
+//@   requires itOK(i) && i.offset < offsetEnd && offsetEnd <= i.offset + 255
 //@   modifies i.offset
 //@   loop 0 invariant itOK(i)
 //@   opt sweep:C03
@@ -657,7 +657,7 @@ package astits
 //@   opt sweep:C03
 
 //@ func newDescriptorEnhancedAC3
-//@   requires itOK(i)
+//@   requires itOK(i) && i.offset < offsetEnd && offsetEnd <= i.offset + 255
 //@   modifies i.offset
 //@   opt sweep:C03
 
@@ -673,22 +673,22 @@ package astits
 //@   opt sweep:C03
 
 //@ func newDescriptorExtension
-//@   requires itOK(i)
+//@   requires itOK(i) && i.offset < offsetEnd && offsetEnd <= i.offset + 255
 //@   modifies i.offset
 //@   opt sweep:C03
 
 //@ func newDescriptorExtensionSupplementaryAudio
-//@   requires itOK(i)
+//@   requires itOK(i) && i.offset < offsetEnd && offsetEnd <= i.offset + 255
 //@   modifies i.offset
 //@   opt sweep:C03
 
 //@ func newDescriptorISO639LanguageAndAudioType
-//@   requires itOK(i)
+//@   requires itOK(i) && i.offset < offsetEnd && offsetEnd <= i.offset + 255
 //@   modifies i.offset
 //@   opt sweep:C03
 
 //@ func newDescriptorLocalTimeOffset
-//@   requires itOK(i)
+//@   requires itOK(i) && i.offset < offsetEnd && offsetEnd <= i.offset + 255
 //@   modifies i.offset
 //@   loop 0 invariant itOK(i)
 //@   opt sweep:C03
@@ -699,12 +699,12 @@ package astits
 //@   opt sweep:C03
 
 //@ func newDescriptorNetworkName
-//@   requires itOK(i)
+//@   requires itOK(i) && i.offset < offsetEnd && offsetEnd <= i.offset + 255
 //@   modifies i.offset
 //@   opt sweep:C03
 
 //@ func newDescriptorParentalRating
-//@   requires itOK(i)
+//@   requires itOK(i) && i.offset < offsetEnd && offsetEnd <= i.offset + 255
 //@   modifies i.offset
 //@   loop 0 invariant itOK(i)
 //@   opt sweep:C03
@@ -720,7 +720,7 @@ package astits
 //@   opt sweep:C03
 
 //@ func newDescriptorRegistration
-//@   requires itOK(i)
+//@   requires itOK(i) && i.offset < offsetEnd && offsetEnd <= i.offset + 255
 //@   modifies i.offset
 //@   opt sweep:C03
 
@@ -740,13 +740,13 @@ package astits
 //@   opt sweep:C03
 
 //@ func newDescriptorSubtitling
-//@   requires itOK(i)
+//@   requires itOK(i) && i.offset < offsetEnd && offsetEnd <= i.offset + 255
 //@   modifies i.offset
 //@   loop 0 invariant itOK(i)
 //@   opt sweep:C03
 
 //@ func newDescriptorTeletext
-//@   requires itOK(i)
+//@   requires itOK(i) && i.offset < offsetEnd && offsetEnd <= i.offset + 255
 //@   modifies i.offset
 //@   loop 0 invariant itOK(i)
 //@   opt sweep:C03
@@ -757,7 +757,7 @@ package astits
 //@   opt sweep:C03
 
 //@ func newDescriptorVBIData
-//@   requires itOK(i)
+//@   requires itOK(i) && i.offset < offsetEnd && offsetEnd <= i.offset + 255
 //@   modifies i.offset
 //@   loop 0 invariant itOK(i)
 //@   loop 1 invariant itOK(i)
@@ -768,6 +768,10 @@ package astits
 //@   requires itOK(i)
 //@   modifies i.offset
 //@   opt sweep:C03
+//@   let o = old(i.offset)
+//@   ensures [C09,C13,C03] erriff: (err != nil) == (len(i.bs) < o + 4)
+//@   ensures [C09,C13,C03] val: err == nil ==> c == old(be32(i.bs, i.offset)) && i.offset == o + 4
+//@   ensures [C03] noadv: err != nil ==> i.offset == o
 
 //@ func parseDVBTime
 //@   requires itOK(i)
@@ -814,26 +818,56 @@ package astits
 //@   requires itOK(i)
 //@   modifies i.offset
 //@   opt sweep:C03
+//@   let o = old(i.offset)
+//@   let tid = u16(old(ib(i, 0)))
+//@   let sl = int(u16(old(ib(i, 1)) & 0x0f) << 8 | u16(old(ib(i, 2))))
+//@   let oCRC = o + 3 + sl - 4
+//@   ensures [C13,C09,C03,C16] fresh: err == nil ==> s != nil && fresh(s) && s.Header != nil
+//@   ensures [C13,C09,C03] stop: err == nil ==> stop == tidStop(tid)
+//@   ensures [C13,C03] end: err == nil && !tidStop(tid) ==> i.offset == o + 3 + sl
+//@   ensures [C03] stopoff: err == nil && tidStop(tid) ==> i.offset == o + 1
+//@   ensures [C09,C13] crcfield: err == nil && !tidStop(tid) && sl > 0 && tidHasCRC(tid) ==> s.CRC32 == old(be32(i.bs, oCRC))
+//@   ensures [C09] crcgate: err == nil && !tidStop(tid) && sl > 0 && tidHasCRC(tid) ==> old(crcFold(0xFFFFFFFF, i.bs[o:oCRC], 0, oCRC - o)) == old(be32(i.bs, oCRC))
 
 //@ func parsePSISectionHeader
 //@   requires itOK(i)
 //@   modifies i.offset
 //@   opt sweep:C03
+//@   let o = old(i.offset)
+//@   let tid = u16(old(ib(i, 0)))
+//@   let b1 = old(ib(i, 1))
+//@   let sl = u16(b1 & 0x0f) << 8 | u16(old(ib(i, 2)))
+//@   ensures [C13,C09,C03,C16] fresh: err == nil ==> h != nil && fresh(h) && offsetStart == o
+//@   ensures [C13,C09,C03] tid: err == nil ==> u16(h.TableID) == tid && i.offset <= len(i.bs)
+//@   ensures [C13,C09,C03] stop: err == nil && tidStop(tid) ==> i.offset == o + 1
+//@   ensures [C13,C09,C03] hdr: err == nil && !tidStop(tid) ==> h.SectionSyntaxIndicator == bit(b1, 0x80) && h.PrivateBit == bit(b1, 0x40) && h.SectionLength == sl && i.offset == o + 3
+//@   ensures [C13,C09,C03] offs: err == nil && !tidStop(tid) ==> offsetSectionsStart == o + 3 && offsetEnd == o + 3 + int(sl) && offsetSectionsEnd == o + 3 + int(sl) - ite(tidHasCRC(tid), 4, 0)
+//@   ensures [C03] noadv: err != nil ==> i.offset >= o && i.offset <= o + 1
 
 //@ func parsePSISectionSyntax
-//@   requires itOK(i)
+//@   requires itOK(i) && h != nil
 //@   modifies i.offset
 //@   opt sweep:C03
+//@   ensures [C13,C03,C16] fresh: err == nil ==> s != nil && fresh(s) && s.Data != nil
+//@   ensures [C13,C03] hdr: err == nil ==> (s.Header != nil) == tidHasSyntax(u16(h.TableID))
 
 //@ func parsePSISectionSyntaxData
-//@   requires itOK(i)
+//@   requires itOK(i) && h != nil && (tidHasSyntax(u16(h.TableID)) ==> sh != nil)
 //@   modifies i.offset
 //@   opt sweep:C03
+//@   ensures [C13,C03,C16] fresh: err == nil ==> d != nil && fresh(d)
 
 //@ func parsePSISectionSyntaxHeader
 //@   requires itOK(i)
 //@   modifies i.offset
 //@   opt sweep:C03
+//@   let o = old(i.offset)
+//@   let b = old(ib(i, 2))
+//@   ensures [C13,C03,C16] fresh: err == nil ==> h != nil && fresh(h) && i.offset == o + 5 && i.offset <= len(i.bs)
+//@   ensures [C13] ext: err == nil ==> h.TableIDExtension == old(be16(i.bs, i.offset))
+//@   ensures [C13,C17] version: err == nil ==> h.VersionNumber == b >> 1 & 0x1f && h.CurrentNextIndicator == bit(b, 0x01)
+//@   ensures [C13] secnum: err == nil ==> h.SectionNumber == old(ib(i, 3)) && h.LastSectionNumber == old(ib(i, 4))
+//@   ensures [C03] bound: i.offset >= o && i.offset <= o + 5
 
 //@ func parseSDTSection
 //@   requires itOK(i)
